@@ -1244,9 +1244,12 @@ def _kwargs_dict(fn, callee, kw):
         if keys_of(v) is not None:
             return keys_of(v)             # the display written in the call itself
     name = next((v.id for v in vals if isinstance(v, ast.Name)), None)
-    for n in ast.walk(fn):
-        if isinstance(n, ast.Assign) and isinstance(n.targets[0], ast.Name) and n.targets[0].id == name and keys_of(n.value) is not None:
-            return keys_of(n.value)
+    if name is None:
+        return set()
+    for nm in _alias_closure(fn, name):          # `kw = table` (the table built under another name, e.g. by a helper put back)
+        for n in ast.walk(fn):
+            if isinstance(n, ast.Assign) and isinstance(n.targets[0], ast.Name) and n.targets[0].id == nm and keys_of(n.value) is not None:
+                return keys_of(n.value)
     return set()
 
 
